@@ -3,7 +3,8 @@
    Initiator.exchange / send_dep_req_recv_dep_res / request_attention / request_retransmission / send_req_recv_res and
    Target.exchange / send_dep_res_recv_dep_req / send_res_recv_req, driven by an arbitrary finite stream of peer answers
       ATimeout    clf.exchange raises TimeoutError (nothing heard within the time-out that was passed)
-      ACorrupt    clf.exchange raises TransmissionError
+      ACorrupt d  a frame with a CRC / parity error arrives d time units after the call: clf.exchange raises TransmissionError
+                  (if the time-out that was granted is shorter than d, or d <= 0, nothing is heard: TimeoutError)
       AFrame f    clf.exchange returns the byte string f - ANY bytes; decoded with Model/DepDecode.v decode_frame
    after which the peer is silent.  (Model/Dep.v of C04 models the same methods against a CONFORMANT peer behind a fault
    script, with its own PDU type; this file restates them over DepDecode's PDUs because every branch that a
@@ -11,7 +12,8 @@
 
    Time is explicit (integer units): the frontend advances the clock by `ctick` per exchange and by the time-out it was
    given when nothing is heard - what harness ScriptClf does - so that the deadline tests `min(rwt, deadline - now) <= 0`
-   are part of the model.  `sent` records every frame handed to clf.exchange.
+   are part of the model.  `sent` records every frame handed to clf.exchange
+   together with the time-out that was granted (so that a listen loop that forgets to shrink its time-out is a different machine).
    Loops that Python bounds only by the peer's behaviour take fuel (Hang when it runs out); Proofs/RobustDepX.v shows that
    fuel above the number of answers left is never used up.
 
@@ -22,10 +24,10 @@ From NV Require Import Base.Result Base.Bytes Model.DepDecode.
 Import ListNotations.
 Open Scope Z_scope.
 
-Inductive answer := ATimeout | ACorrupt | AFrame (f : list Z).
+Inductive answer := ATimeout | ACorrupt (d : Z) | AFrame (f : list Z).
 
 Record cfg := mkcfg { c106 : bool; cdid : option Z; cnad : option Z; cmiu : Z; crwt : Z; ctick : Z; corig : bool }.
-Record st := mkst { now : Z; ans : list answer; sent : list (option (list Z)) }.
+Record st := mkst { now : Z; ans : list answer; sent : list (option (list Z) * Z) }.   (* sent: frame and granted time-out of every call *)
 Record dpd := mkdpd { rfmt : Z; rpni : Z; rdid : option Z; rdata : list Z }.     (* the fields of a DEP PDU that are looked at *)
 
 Definition M (A : Type) : Type := (res A * st)%type.
@@ -45,11 +47,12 @@ Definition enc_dep (req : bool) (c : cfg) (did nad : option Z) (fmt pni : Z) (da
 (* clf.exchange(frame, timeout) as the scripted frontend of the check implements it *)
 Definition xchg (c : cfg) (s : st) (frame : option (list Z)) (t : Z) : M (list Z) :=
   let n1 := now s + ctick c in
-  let snt := sent s ++ [frame] in
+  let snt := sent s ++ [(frame, t)] in
+  let silent (r : list answer) : M (list Z) := (Err TimeoutError, mkst (n1 + Z.max t (ctick c)) r snt) in
   match ans s with
-  | [] => (Err TimeoutError, mkst (n1 + Z.max t (ctick c)) [] snt)
-  | ATimeout :: r => (Err TimeoutError, mkst (n1 + Z.max t (ctick c)) r snt)
-  | ACorrupt :: r => (Err TransmissionError, mkst n1 r snt)
+  | [] => silent []
+  | ATimeout :: r => silent r
+  | ACorrupt d :: r => if (0 <? d) && (d <=? t) then (Err TransmissionError, mkst (now s + d) r snt) else silent r
   | AFrame f :: r => (Ok f, mkst n1 r snt)
   end.
 
